@@ -70,7 +70,7 @@ reg("C05", "proof", ["contracts.deriv:GeneralKernel", "contracts.deriv:DirectKer
      "gbasis.base_one.BaseOneIndex.construct_array_*"])
 
 reg("C06", "proof", ["contracts.density:DensityFromOrbs", "contracts.density:DensityThreshold", "contracts.density:ReducedDM",
-    "contracts.density:DerivDensity", "contracts.density:GradLapHess", "contracts.density:KineticDensity"],
+    "contracts.density:DerivDensity", "contracts.density:GradLapHess", "contracts.density:KineticDensity", "contracts.density:ThresholdAnyN"],
     ["gbasis.evals.density.evaluate_density_using_evaluated_orbs", "gbasis.evals.density.evaluate_density",
      "gbasis.evals.density.evaluate_deriv_reduced_density_matrix", "gbasis.evals.density.evaluate_deriv_density",
      "gbasis.evals.density.evaluate_density_gradient", "gbasis.evals.density.evaluate_density_laplacian",
@@ -88,7 +88,7 @@ reg("C15", "proof", ["contracts.stress:Stress", "contracts.density:ReducedDM", "
 reg("C14", "proof", ["contracts.esp:ESP"], ["gbasis.evals.electrostatic_potential.electrostatic_potential"],
     extra_assumptions=["point_charge_integral replaced by its contract (C03)", "mask / case analysis by z3 (QF_NRA with square-root atoms)"])
 
-reg("C20", "proof", ["contracts.screening:IsScreened", "contracts.screening:ScreeningLemmas", "contracts.screening:OverlapScreenedBlock",
+reg("C20", "proof", ["contracts.screening:IsScreened", "contracts.screening:IsScreenedAnyK", "contracts.screening:ScreeningLemmas", "contracts.screening:OverlapScreenedBlock",
     "contracts.assembly:TwoSymm", "contracts.dispatch:Dispatch"],
     ["gbasis.integrals.overlap.is_integral_screened", "gbasis.integrals.overlap.Overlap.construct_array_contraction",
      "gbasis.integrals.overlap.overlap_integral", "gbasis.base_two_symm.BaseTwoIndexSymmetric.construct_array_* (keyword forwarding)"],
